@@ -178,8 +178,11 @@ C_ReleaseDrop(c) ==
     /\ UNCHANGED <<prog, mtx, schedQ, cancelQ, exitFlag, tpc, listCpy, cancelCpy, runTime, timeout, deadline, waiting, timedout, tDone,
                    inner, due, now, inv, handed, nodes, closed>>
 (* the last reference: s_destroy_callback *)
+(* the flag is stored with the mutex held (repair F14): the store cannot fall between the thread's predicate *)
+(* evaluation and its wait; the critical section contains nothing else, so it is one step                  *)
 D_StoreExit(c) ==
     /\ HasOp(c) /\ cpc[c] = "op" /\ Cur(c)[1] = "R" /\ refs = 1
+    /\ (WithFix => mtx = "free")
     /\ refs' = 0 /\ exitFlag' = TRUE /\ cpc' = [cpc EXCEPT ![c] = "d_nt"]
     /\ UNCHANGED <<prog, ip, mtx, schedQ, cancelQ, tpc, listCpy, cancelCpy, runTime, timeout, deadline, waiting, timedout, tDone, inner,
                    due, now, inv, handed, nodes, closed>>
@@ -231,6 +234,9 @@ RunOnlyOnSchedThread == \A t \in Tasks : \A i \in 1 .. Len(inv[t]) : inv[t][i].s
 NeverEarly == \A t \in Tasks : \A i \in 1 .. Len(inv[t]) : inv[t][i].status = "RUN" => inv[t][i].time >= due[t]
 ThreadGoneAtClose == closed => tDone
 NoLeak == closed => nodes = 0
+(* the final release never has to sit out the thread's timed wait: once the destroyer has notified and is  *)
+(* joining, the thread is not asleep on its condition variable                                              *)
+NoSleepThroughExit == ~(exitFlag /\ tpc = "wt" /\ waiting /\ \E c \in Clients : cpc[c] = "d_jn")
 MutexSane == mtx \in {"free", "T"} \cup Clients
 ReleaseReturns == <>AllDone
 =============================================================================
